@@ -29,6 +29,12 @@ def run(model, rep, tier):
     from . import c12
     c12.entry_info_is_opaque(ctx, rep, 'C16.R5')
     c02.r1_verdict_expression(ctx, rep, R='C16.R6')
+    # a layer failure is a bad outcome the layer loop must see: the recorder appends it on every
+    # normal exit, also when reporting it raised and a handler in the recorder swallowed that
+    from . import c04
+    c04.r3_recorder(ctx, rep, R='C16.R7')
+    from . import robust
+    robust.asserts_have_no_effects(ctx, rep, 'C16.R20', 'C16')
     rep.units['cfg'] = ctx.cfg_stats
 
 
